@@ -118,6 +118,19 @@ CHECKS = {
             "trusted: plain trigonometry and the support-function argument in mc/checks/c04.py; placement of off-centre "
             "members of shape groups is not asserted (rotation centre not fixed by the statement)",
             "DESIGN.md §4 C04"),
+    "C06": ("exhaustive enumeration of lanelet subsets x 14 construction routes x all grid points / query shapes x anchors / "
+            "obstacles, and shape alphabet x grid points, against exact rational geometry (fractions) on the raw vertices",
+            "Every subset of size <=2 (thorough <=3) of an 8-lanelet half-integer alphabet (overlapping, boundary-sharing, "
+            "kinked, narrow, diagonal, far) built through every route (list, lanelet-wise both orders, Scenario, XML, protobuf, "
+            "deepcopy, pickle, copy-of-network, deferred index, add/remove swaps that keep the lanelet count) is queried at "
+            "1093 points (find_lanelet_by_position, Lanelet.contains_points), with 9 query shapes at 20 anchors "
+            "(find_lanelet_by_shape) and 40 static obstacles (get_obstacles, map_obstacles_to_lanelets, "
+            "filter_obstacles_in_network); 12 shapes x all points: contains_point and exported shapely geometry vs the "
+            "defining parameters.",
+            "trusted: mc/geom.py (exact crossing-number, segment intersection, point-segment distance). Guarded: rotated "
+            "rectangles within 1e-7 relative of touching, circles within 1% of r (shapely 64-gon). Known finding listed: "
+            "Circle.shapely_object has radius r/2 (repair would break two pinned tests)",
+            "DESIGN.md §4 C06"),
 }
 
 NOT_YET = {}
